@@ -781,6 +781,21 @@ def check_make_output_sites(r, rule, functions=None):
                 continue
             rep.ob(rule, fq, ref == "SEQS" and qry_ok and ot == "OT", "the result is shaped by the reference collection (rows) and the query collection (columns) and by the caller's output_type",
                    wh(r, fq, e.node), expected="_make_output(triplets, output_type, seqs, seqs2)", found=show(c, 90), key=f"make_output site {fq}")
+        # a function that shapes its result with _make_output does so on every path: a bare container returned on a shortcut is a list where a
+        # matrix was asked for
+        if s.calls(MOD + "_make_output") and s.func.parent is None:
+            from ..ssa import leaves as _leaves
+            from ..rules import lift_ite as _lift
+            try:
+                lv = [strip(l) for _, l in _leaves(_lift(strip_all(s.ret)))]
+            except AnalysisBroken:
+                lv = []
+            for l in lv:
+                bare = head(l) in ("list", "tuple", "set", "dict") or (is_call(l) and head(strip(l[1])) == "glob" and strip(l[1])[1] in ("builtins.list", "builtins.set", "builtins.tuple") and not l[2]) \
+                    or head(l) in ("after", "phi", "mut") or (is_const(l) and l[2] is None)
+                if bare:
+                    rep.ob(rule, fq, False, "every result leaves through _make_output (the requested format on every path)", wh(r, fq, s.func.node), expected="return _make_output(...)",
+                           found=f"return {show(l, 50)}", key=f"bare return {fq}", lint=True)
     return sites
 
 
@@ -1355,15 +1370,28 @@ def _is_deletion_variant(s, v, seq, indexes):
             starts, stops = strip_all(it[2][0]), strip_all(it[2][1])
             idx = strip_all(indexes)
 
+            def parts(t):
+                # a concatenation written as a + b, itertools.chain(a, b), list(..) / tuple(..) around either: its pieces in order
+                t = strip(t)
+                if head(t) == "bin" and t[1] == "+":
+                    return parts(t[2]) + parts(t[3])
+                if is_call(t, "itertools.chain") and not t[3]:
+                    return [p_ for a_ in t[2] for p_ in parts(a_)]
+                if is_call(t) and head(strip(t[1])) == "glob" and strip(t[1])[1] in ("builtins.list", "builtins.tuple") and len(t[2]) == 1 and not t[3]:
+                    return parts(t[2][0])
+                if head(t) in ("list", "tuple"):
+                    return [("lit", tuple(strip_all(x) for x in t[1]))]
+                return [("term", strip_all(t))]
+
             def plus_one_list(t):
-                return head(t) == "comp" and t[1] == "list" and len(t[3]) == 1 and not t[3][0][1] and strip_all(t[3][0][0][3]) == idx \
+                return head(t) == "comp" and t[1] in ("list", "gen") and len(t[3]) == 1 and not t[3][0][1] and strip_all(t[3][0][0][3]) == idx \
                     and strip_all(t[2]) in (("bin", "+", strip_all(t[3][0][0]), const(1)), ("bin", "+", const(1), strip_all(t[3][0][0])))
-            ok_starts = head(starts) == "bin" and starts[1] == "+" and strip(starts[2]) == ("list", (const(0),)) and plus_one_list(strip(starts[3]))
-            st2 = strip(stops[2]) if head(stops) == "bin" and stops[1] == "+" else None
-            if st2 is not None and is_call(st2, "builtins.list") and len(st2[2]) == 1:
-                st2 = strip(st2[2][0])
-            tail_ = strip(stops[3]) if head(stops) == "bin" and stops[1] == "+" else None
-            ok_stops = st2 == idx and tail_ == ("list", (strip_all(lenseq),))
+            ps, pe = parts(starts), parts(stops)
+            shaped = len(ps) == 2 and len(pe) == 2 and ps[0][0] == "lit" and ps[1][0] == "term" and pe[0][0] == "term" and pe[1][0] == "lit"
+            if not shaped:
+                return None, f"pieces seq[a:b] over {show(it, 80)}: the start / stop sequences are not of the form [0] + [p + 1 ...] / positions + [len(seq)]"
+            ok_starts = ps[0][1] == (const(0),) and plus_one_list(ps[1][1])
+            ok_stops = pe[0][1] == idx and pe[1][1] == (strip_all(lenseq),)
             if ok_starts and ok_stops:
                 return True, "starts / stops idiom"
             return False, f"pieces seq[a:b] over {show(it, 80)}: expected a from [0] + [p + 1 for p in positions], b from positions + [len(seq)]"
@@ -1689,6 +1717,22 @@ def check_encoder(r, rule):
         return
     e = incs[0]
     lp = [s.loops[l] for l in e.ctx.loops]
+    if len(lp) == 1 and strip(lp[0].iterable) != seq and any(x == seq for x in walk(("t", strip_all(lp[0].iterable)))) \
+            and not is_call(strip(lp[0].iterable), "builtins.enumerate"):          # (enumerate hands out positions: judged by the rules below)
+        it_ = strip(lp[0].iterable)
+        counted = is_mcall(it_, "items") and is_call(strip(strip(it_[1])[1]), "collections.Counter") and strip(strip(strip(it_[1])[1])[2][0]) == seq
+        idx_ = strip(e["index"])
+        if counted and not e.ctx.guards and e.kind == "augitem" and e["op"] == "+" and strip(e["value"]) == ("item", lp[0].elem, 1) \
+                and head(idx_) == "sub" and strip(idx_[2]) == ("item", lp[0].elem, 0) and _char_map_ok(nn, q, s, strip_all(idx_[1])):
+            # for char, n in Counter(cdr3).items(): ans[map[char]] += n   - the same vector, letter by letter instead of character by character
+            for k_, txt in (("enc loop", "the update runs once for every character of the sequence, unguarded"), ("enc increment", "the coordinate is incremented by exactly 1"),
+                            ("enc map", "the coordinate is chosen by a map of the character only (not of its position)")):
+                r.rep.ob(rule, q, True, txt, wh(r, q, e.node), key=k_)
+            z = strip(s.ret)
+            r.rep.ob(rule, q, is_call(z, "numpy.zeros"), "the vector starts at zero", where, expected="np.zeros(dimension)", found=show(z, 60), key="enc zeros")
+            return
+        r.rep.require(False, f"{q}: the encoder loops over {show(it_, 60)}, not over the characters of the sequence; outside the idiom list; cannot decide [{rule}]")
+        return
     ok_loop = len(lp) == 1 and strip(lp[0].iterable) == seq and not e.ctx.guards
     r.rep.ob(rule, q, ok_loop, "the update runs once for every character of the sequence, unguarded", wh(r, q, e.node), expected="for char in cdr3: (no guard)",
              found=f"{len(lp)} loop(s) over {show(lp[0].iterable, 30) if lp else '-'}; {len(e.ctx.guards)} guard(s)", key="enc loop")
